@@ -181,6 +181,19 @@ func (it *Interp) Step(t []string, op string) string {
 		}
 		it.w = w
 		return "ok"
+	case "log.reopen":
+		// a restart: the old writer is closed, a new one is constructed on the SAME directory
+		if it.w == nil || it.closed {
+			return "bad-op"
+		}
+		maxSize, maxFiles := vh.U(t[1]), vh.U(t[2])
+		it.closeWriter()
+		w, err := metric.NewDefaultMetricLogWriterOfApp(maxSize, uint32(maxFiles), app)
+		if err != nil {
+			return "err"
+		}
+		it.w = w
+		return "ok"
 	case "log.end":
 		it.drop()
 		return ""
